@@ -1,0 +1,10 @@
+//go:build verif
+
+package trafficrouting
+
+// VerifSetGracePeriodSeconds overrides the package default grace period and returns the old value.
+func VerifSetGracePeriodSeconds(s int32) int32 {
+	old := defaultGracePeriodSeconds
+	defaultGracePeriodSeconds = s
+	return old
+}
